@@ -149,6 +149,8 @@ def table : List Entry := [
   ⟨"dosnode.dispatchSign|close|close(out)#2", "", .safe "deferred close of a channel this stage created: executed once"⟩,
   ⟨"dosnode.dispatchSign|close|close(out)#3", "", .safe "deferred close of a channel this stage created: executed once"⟩,
   ⟨"dosnode.dispatchSign|close|close(out)#4", "", .safe "deferred close of a channel this stage created: executed once"⟩,
+  ⟨"dosnode.dispatchSign|close|close(out)#5", "", .safe "deferred close of a channel this stage created: executed once"⟩,
+  ⟨"dosnode.dispatchSign|close|close(out)#6", "", .safe "deferred close of a channel this stage created: executed once"⟩,
   ⟨"dosnode.genQueryResult|close|close(errc)", "", .safe "deferred close of a channel this stage created: executed once"⟩,
   ⟨"dosnode.genQueryResult|close|close(out)", "", .safe "deferred close of a channel this stage created: executed once"⟩,
   ⟨"dosnode.genSysRandom|close|close(out)", "", .safe "deferred close of a channel this stage created: executed once"⟩,
